@@ -51,7 +51,7 @@ var _ RawRegister32 = ParseTXTVerFSBIF(0)
 // ReadTXTVerFSBIF reads a TXTVerFSBIF register from TXT config
 func ReadTXTVerFSBIF(data TXTConfigSpace) (TXTVerFSBIF, error) {
 	var u32 uint32
-	buf := bytes.NewReader(data[TXTVerFSBIfRegisterOffset:])
+	buf := bytes.NewReader(data.from(TXTVerFSBIfRegisterOffset))
 	err := binary.Read(buf, binary.LittleEndian, &u32)
 	if err != nil {
 		return 0, err
